@@ -1033,6 +1033,17 @@ theorem drel_flush_done {custom : Bool} {progs : List (List Op)} {s : St} {m : D
   · intro g' i snap hmem gs hgs
     exact h.snaps g' i snap (List.mem_filter.mp hmem).1 gs hgs
 
+theorem filter_inCall_eq {l : List (Nat × Nat × Bool)} {g i : Nat} (b : Bool) (hno : ∀ i b, (g, i, b) ∉ l) :
+    ((g, i, b) :: l).filter (fun x => !(x.1 == g && x.2.1 == i)) = l := by
+  rw [List.filter_cons]
+  simp only [beq_self_eq_true, Bool.and_self, Bool.not_true, Bool.false_eq_true, if_false]
+  rw [List.filter_eq_self]
+  intro x hx
+  simp only [Bool.not_eq_true', Bool.and_eq_false_iff, beq_eq_false_iff_ne]
+  left
+  intro e
+  exact hno x.2.1 x.2.2 (by rw [← e]; exact hx)
+
 /-- the delivery relation is preserved by every segment of every worker -/
 theorem drel_advance {custom : Bool} {progs : List (List Op)} {s : St} {m : DMon} (g : Nat)
     (hs : SInv progs s) (ho : OInv progs s) (h : DRel custom s m) :
@@ -1117,7 +1128,184 @@ theorem drel_advance {custom : Bool} {progs : List (List Op)} {s : St} {m : DMon
         split
         · exact List.mem_cons_of_mem _ (by rw [e4]; exact this)
         · rw [e4]; exact this
-    · sorry
-    · sorry
+    · -- replay gate
+      rename_i hgate
+      have hnp : ∀ r, w.gate ≠ some (.pass r) := by intro r hc; rw [hgate] at hc; cases hc
+      have hhead := hs.repOp g w hw hgate
+      have hop := opAt_of_sync (hs.sync g w hw) (ops_of_head hhead)
+      split
+      · rename_i hb
+        exact drel_flush false h hw hb hnp hop
+      · rename_i r rest hb
+        simp only [Flags.fixed, Bool.not_true, Bool.and_false, Bool.false_eq_true, if_false]
+        have hpop := drel_pop (progs := progs) h hb
+        split
+        · rename_i hemp
+          have hrest : rest = [] := by simpa using hemp
+          subst hrest
+          exact dstep_trans hpop (fun m1 h1 => drel_flush false h1 hw rfl hnp hop)
+        · exact hpop
+    · -- between ops
+      rename_i hgn
+      have hnp : ∀ r, w.gate ≠ some (.pass r) := by intro r hc; rw [hgn] at hc; cases hc
+      have hno := inCall_none h hw hnp
+      split
+      · exact dstep_refl h
+      · rename_i op rest hops
+        have hop := opAt_of_sync (hs.sync g w hw) hops
+        cases op with
+        | log c =>
+          simp only
+          have hm1 : dStep custom progs m (.begin g w.idx) =
+              { m with inCall := (g, w.idx, mustDeliver s.level s.shutdown c) :: m.inCall } := by
+            simp [dStep, hop, h.lvl, h.sd]
+          have hany : ((g, w.idx, mustDeliver s.level s.shutdown c) :: m.inCall).any
+              (fun x => x.1 == g && x.2.1 == w.idx && x.2.2) = mustDeliver s.level s.shutdown c := by
+            simp [List.any_cons, any_inCall_false hno]
+          split
+          · -- not accepted: the call returns at once
+            rename_i hrej
+            have hmust : mustDeliver s.level s.shutdown c = false := by
+              cases hmd : mustDeliver s.level s.shutdown c with
+              | false => rfl
+              | true =>
+                have hacc := (accepted_of_must hmd).1
+                simp only [Bool.and_eq_true, decide_eq_true_eq, Bool.or_eq_true, Bool.not_eq_true'] at hacc
+                simp only [emit_level, emit_shutdown, Bool.not_eq_true', Bool.and_eq_false_iff, decide_eq_false_iff_not,
+                  Bool.or_eq_false_iff, Bool.not_eq_false'] at hrej
+                rcases hrej with hr | ⟨hr1, hr2⟩
+                · exact absurd hacc.1 hr
+                · rcases hacc.2 with hd | hd
+                  · rw [hr1] at hd; cases hd
+                  · rw [hr2] at hd; cases hd
+            refine ⟨[.begin g w.idx, .done g w.idx], by simp [finishOp_eq], ?_⟩
+            simp only [List.foldl_cons, List.foldl_nil]
+            rw [hm1]
+            simp only [dStep, hop]
+            rw [hany, hmust]
+            simp only [Bool.false_eq_true, if_false, filter_inCall_eq _ hno]
+            exact drel_setws (s' := finishOp (emit s [.begin g w.idx]) g w)
+              (w' := { ops := w.ops.tail, idx := w.idx + 1, gate := none }) h hw (by simp [finishOp_eq]) hno
+              rfl rfl rfl rfl rfl h.lvl h.sd rfl rfl
+          · split
+            · -- buffered: the call returns at once, the record waits in the buffer
+              refine ⟨[.begin g w.idx, .done g w.idx], by simp [finishOp_eq], ?_⟩
+              simp only [List.foldl_cons, List.foldl_nil]
+              rw [hm1]
+              simp only [dStep, hop]
+              rw [hany]
+              simp only [filter_inCall_eq _ hno]
+              refine ⟨h.lvl, h.sd, h.cust, h.ok, ?_, ?_, ?_⟩
+              · intro g' i b hmem
+                obtain ⟨wx, r, hwx, hg, hi, hbf⟩ := h.inCall g' i b hmem
+                have hne : g' ≠ g := fun e => hno i b (e ▸ hmem)
+                refine ⟨wx, r, ?_, hg, hi, hbf⟩
+                simp only [finishOp_eq, setWorker_ws, emit_ws, getElem?_set_worker _ g g' w _ hw]
+                simp [hne, hwx]
+              · intro g' x hmem
+                simp only at hmem
+                have hold : (g', x) ∈ m.returned → (g', x) ∈ m.written ∨
+                    ∃ r' ∈ s.batch ++ (s.buffer ++ [{ g := g, c := c }]), r'.g = g' ∧ r'.c.seq = x ∧ r'.c.fail = false := by
+                  intro hm
+                  rcases h.ret g' x hm with hwr | ⟨r', hr', hrest⟩
+                  · exact Or.inl hwr
+                  · refine Or.inr ⟨r', ?_, hrest⟩
+                    rw [← List.append_assoc]
+                    exact List.mem_append_left _ hr'
+                split at hmem
+                · rename_i hmust
+                  simp only [List.mem_cons, Prod.mk.injEq] at hmem
+                  rcases hmem with ⟨hg', hx'⟩ | hmem
+                  · subst hg'; subst hx'
+                    right
+                    exact ⟨{ g := g', c := c }, by simp [finishOp_eq], rfl, rfl, (accepted_of_must hmust).2⟩
+                  · exact hold hmem
+                · exact hold hmem
+              · intro g' i snap hmem gs hgs
+                have := h.snaps g' i snap hmem gs hgs
+                simp only
+                split
+                · exact List.mem_cons_of_mem _ this
+                · exact this
+            · -- pass-through: the call is in progress, blocked in the final handler
+              refine ⟨[.begin g w.idx], by simp, ?_⟩
+              simp only [List.foldl_cons, List.foldl_nil]
+              rw [hm1]
+              refine ⟨h.lvl, h.sd, h.cust, h.ok, ?_, h.ret, h.snaps⟩
+              intro g' i b hmem
+              simp only [List.mem_cons, Prod.mk.injEq] at hmem
+              rcases hmem with ⟨hg', hi', hb'⟩ | hmem
+              · subst hg'; subst hi'
+                refine ⟨{ w with gate := some (.pass { g := g', c := c }) }, { g := g', c := c }, ?_, rfl, rfl, ?_⟩
+                · simp only [setWorker_ws, emit_ws, getElem?_set_worker _ g' g' w _ hw, if_true]
+                · intro hbt
+                  rw [hbt] at hb'
+                  exact (accepted_of_must hb'.symm).2
+              · obtain ⟨wx, r, hwx, hg, hi, hbf⟩ := h.inCall g' i b hmem
+                have hne : g' ≠ g := fun e => hno i b (e ▸ hmem)
+                refine ⟨wx, r, ?_, hg, hi, hbf⟩
+                simp only [setWorker_ws, emit_ws, getElem?_set_worker _ g g' w _ hw]
+                simp [hne, hwx]
+        | startBuffering =>
+          simp only
+          split
+          · exact dstep_refl h
+          · have hm : dStep custom progs m (.begin g w.idx) = m := by simp [dStep, hop]
+            split
+            · exact drel_finish_plain (s' := { (emit s [.begin g w.idx]) with buffering := true }) h hw hnp hop
+                (by intro c hc; cases hc) (by intro hc; cases hc) hm rfl rfl rfl rfl rfl rfl rfl h.lvl h.sd rfl rfl
+            · rename_i hwr
+              have hbuf : s.buffer = [] := hs.f5 (hs.f6 (by simpa using hwr))
+              exact drel_finish_plain
+                (s' := { (emit s [.begin g w.idx]) with wrapped := true, buffering := true, buffer := [] }) h hw hnp hop
+                (by intro c hc; cases hc) (by intro hc; cases hc) hm rfl rfl rfl rfl rfl rfl rfl h.lvl h.sd rfl
+                (by simp [hbuf])
+        | setLevel lvl =>
+          simp only
+          split
+          · exact dstep_refl h
+          · split
+            · rename_i hcust
+              have hc : custom = true := by rw [← h.cust]; simpa using hcust
+              have hm : dStep custom progs m (.begin g w.idx) = m := by simp [dStep, hop, hc]
+              exact drel_finish_plain (s' := emit s [.begin g w.idx]) h hw hnp hop
+                (by intro c hc; cases hc) (by intro hc; cases hc) hm rfl rfl rfl rfl rfl rfl rfl h.lvl h.sd rfl rfl
+            · rename_i hcust
+              have hc : custom = false := by rw [← h.cust]; simpa using hcust
+              have hm : dStep custom progs m (.begin g w.idx) = { m with level := lvl } := by simp [dStep, hop, hc]
+              split
+              · exact drel_finish_plain (s' := { (emit s [.begin g w.idx]) with level := lvl }) h hw hnp hop
+                  (by intro c hc; cases hc) (by intro hc; cases hc) hm rfl rfl rfl rfl rfl rfl rfl rfl h.sd rfl rfl
+              · rename_i hkeep
+                have hemp := empty_of_not_buffering hs (s := s) (by simpa [Flags.fixed] using hkeep)
+                exact drel_finish_plain
+                  (s' := { (emit s [.begin g w.idx]) with level := lvl, wrapped := false, buffering := false, buffer := [] })
+                  h hw hnp hop (by intro c hc; cases hc) (by intro hc; cases hc) hm rfl rfl rfl rfl rfl rfl rfl rfl h.sd rfl
+                  (by simp [hemp.2])
+        | shutdown =>
+          have hm : dStep custom progs m (.begin g w.idx) = { m with shutdown := true } := by simp [dStep, hop]
+          exact drel_finish_plain (s' := { (emit s [.begin g w.idx]) with shutdown := true }) h hw hnp hop
+            (by intro c hc; cases hc) (by intro hc; cases hc) hm rfl rfl rfl rfl rfl rfl rfl h.lvl rfl rfl rfl
+        | flush =>
+          simp only
+          split
+          · exact dstep_refl h
+          · rename_i hnf
+            have hnone : s.flusher = none := by simpa using hnf
+            -- the monitor notes what had returned when this FlushBuffer began
+            have hbeg : DStepTo custom progs s m (emit s [.begin g w.idx]) := by
+              refine ⟨[.begin g w.idx], rfl, ?_⟩
+              simp only [List.foldl_cons, List.foldl_nil, dStep, hop]
+              refine ⟨h.lvl, h.sd, h.cust, h.ok, h.inCall, h.ret, ?_⟩
+              intro g' i snap hmem gs hgs
+              simp only [List.mem_cons, Prod.mk.injEq] at hmem
+              rcases hmem with ⟨_, _, hsnap⟩ | hmem
+              · rw [hsnap] at hgs; exact hgs
+              · exact h.snaps g' i snap hmem gs hgs
+            split
+            · rename_i hwr
+              have hemp := empty_of_not_buffering hs (s := s) (by simp at hwr; simp [hwr])
+              exact dstep_trans hbeg (fun m1 h1 => drel_flush_done h1 hw (by simp [hemp.1, hemp.2]) hnp hop)
+            · exact dstep_trans hbeg (fun m1 h1 => drel_flush true h1 hw (hs.f3 hnone) hnp hop)
 
 end Rivaas.LogBuf
